@@ -497,7 +497,9 @@ twin, _replay_twin = adopt_twin('twin.tC07', FINDING_PATTERNS)
 
 
 def replay(unit, name, model):
-    return {'reproduced': False, 'what': 'no native replay for proof counterexamples of this unit'}
+    """native replay of a solver model on the real classes (props/replay_state.py)"""
+    from props import replay_state
+    return replay_state.replay(unit, name, model)
 
 
 def replay_file(doc):
